@@ -9,12 +9,12 @@ func init() {
 	p := &core.Property{
 		ID:    "C17",
 		Title: "Iterators are bidirectional cursors over an immutable snapshot",
-		Rule: "Exhaustive: every sequence of moves {GetNext, GetPrevious, ToStart, ToEnd, ToSlot(k), k in -size-2..size+2} of length 4 (quick) / 6 (thorough) on iterators over 0..4 values, each replayed on a fresh iterator against a cursor model with GetSlot, HasNext, HasPrevious, GetSize, IsEmpty compared after every move " +
+		Rule: "Exhaustive: every sequence of moves {GetNext, GetPrevious, ToStart, ToEnd, ToSlot(k), k in -size-2..size+2} of length 4 (quick) / 7 (thorough) on iterators over 0..4 values, each replayed on a fresh iterator against a cursor model with GetSlot, HasNext, HasPrevious, GetSize, IsEmpty compared after every move " +
 			"(one case = one (size, first move, second move) prefix with all continuations). Snapshot engine: for each of the seven kinds a random walk of an iterator interleaved with every mutating operation of its source collection and with moves of a second iterator; the first iterator must keep enumerating the values present when it was obtained. " +
 			"distinct_nontrivial = distinct prefixes (exhaustive) + distinct interleaved histories (snapshot).",
 		Assumptions: []string{"ToSlot(k) for k < -size may land on slot 0 or slot 1 (the statement says clamp without fixing the lower clamp)", "the enumeration order of a Map iterator is whatever the iterator shows when obtained"},
 		Engines: []*core.Engine{
-			{Name: "moves/exhaustive", Count: core.FixedCount(seq.C17ExhaustiveCases(), seq.C17ExhaustiveCases()), Run: seq.RunC17Exhaustive, Exhaustive: true, CPULimit: 120},
+			{Name: "moves/exhaustive", Count: core.FixedCount(seq.C17ExhaustiveCases(), seq.C17ExhaustiveCases()), Run: seq.RunC17Exhaustive, Exhaustive: true, CPULimit: 900},
 		},
 	}
 	for _, k := range seq.C17Kinds {
